@@ -99,18 +99,19 @@ def strtoPrefix (base : Nat) (s1 : List Byte) : Nat × List Byte :=
   | 48 :: _ => if base == 0 then (8, s1) else (base, s1)
   | _ => if base == 0 then (10, s1) else (base, s1)
 
-/-- value and `endptr - nptr` of `strtoul(l, &end, base)`, total (signs included) -/
-def strtoulL (base : Nat) (l : List Byte) : Nat × Nat :=
-  let s1 := l.dropWhile isSpace
-  let ns : Bool × List Byte :=
-    match s1 with
-    | 45 :: r => (true, r)
-    | 43 :: r => (false, r)
-    | _ => (false, s1)
-  let bs := strtoPrefix base ns.2
+/-- the part of strtoul after white space and sign: `s1` is what follows them, `neg` the sign -/
+def strtoCore (base : Nat) (l s1 : List Byte) (neg : Bool) : Nat × Nat :=
+  let bs := strtoPrefix base s1
   let t := takeDigits bs.1 bs.2 0 0
   if t.2.1 = 0 then (0, 0)
-  else ((if t.1 > ulongMax then ulongMax else if ns.1 then (2^64 - t.1) % 2^64 else t.1), l.length - t.2.2.length)
+  else ((if t.1 > ulongMax then ulongMax else if neg then (2^64 - t.1) % 2^64 else t.1), l.length - t.2.2.length)
+
+/-- value and `endptr - nptr` of `strtoul(l, &end, base)`, total (signs included) -/
+def strtoulL (base : Nat) (l : List Byte) : Nat × Nat :=
+  match l.dropWhile isSpace with
+  | 45 :: r => strtoCore base l r true
+  | 43 :: r => strtoCore base l r false
+  | s1 => strtoCore base l s1 false
 
 /-- number of bytes libc reads, starting at `i` (contiguous): white space, sign, `0x`, digits, and
 the byte that stops the digit loop -/
